@@ -26,7 +26,10 @@ def parseIn (j : Json) : JE WfIn := do
     | "dep" => InKind.dep
     | "indirect" => InKind.indirect
     | _ => InKind.input
-  pure { src := (← J.str j "from"), kind, mapped := if J.boolD j "mapped" false then some 0 else none }
+  -- "fid": n > 0 – the input is `MapFields("k", "k<n>")` (target field id n); "mapped": `MapFields("X","X")` (id 0)
+  let fid := J.natD j "fid" 0
+  pure { src := (← J.str j "from"), kind,
+         mapped := if fid > 0 then some fid else if J.boolD j "mapped" false then some 0 else none }
 
 def optState (c : Json) : Option Nat :=
   match c.getObjVal? "state" with
